@@ -103,6 +103,25 @@ func evalC04(t *tm.Term, S []string, allKeys bool, r *core.Result) string {
 			}
 		}
 		_ = sdU
+		var verboseU string
+		tm.AtU(S, func() { verboseU = fmt.Sprintf("%+v", errors.Formattable(d)) })
+		for i, n := range nodesU {
+			if !tm.IsOpaque(n) {
+				continue
+			}
+			if !strings.Contains(verboseU, wl[i].TypeName) {
+				return fail("verbose-at-U|"+typeTail(wl[i].TypeName), "%%+v at the unknowing process does not show the origin's type name %s of opaque layer %d", wl[i].TypeName, i)
+			}
+			for _, rp := range wl[i].Reportable {
+				first := rp
+				if k := strings.IndexByte(first, '\n'); k >= 0 {
+					first = first[:k]
+				}
+				if first != "" && !strings.Contains(verboseU, first) {
+					return fail("verbose-at-U|"+typeTail(wl[i].TypeName), "%%+v at the unknowing process does not show the safe detail %q of opaque layer %d (%s)", first, i, wl[i].TypeName)
+				}
+			}
+		}
 		// --- re-encoding reproduces the received message
 		a, b := w0, w1
 		exact := allKeys
